@@ -288,6 +288,50 @@ func vdrCase(c *Ctx, focus string) {
 				}
 			}
 		}
+		if path.Dir(p) != r.PsDir {
+			// what the storage code actually removed below this fork: stage files
+			// covered by a removal issued from storage.go (resets after a restart
+			// remove whole job directories from metadata.go and are not VDR)
+			forkDir := "ps/" + strings.TrimPrefix(path.Dir(p), r.PsDir+"/")
+			var vdrBytes uint64
+			var vdrFiles uint
+			for fp, rec := range r.Files {
+				frel := "ps/" + strings.TrimPrefix(fp, r.PsDir+"/")
+				if !strings.HasPrefix(frel, forkDir+"/") || exists(fp) {
+					continue
+				}
+				for _, ev := range vos.W.Events {
+					if ev.Seq > rec.Seq && ev.Site == "storage.go" && ev.Err == "" &&
+						(ev.Op == "removeall" || ev.Op == "remove") &&
+						(ev.Path == frel || strings.HasPrefix(frel, ev.Path+"/")) {
+						// Only removals whose accounting reached the disk count: the
+						// same mrp process wrote this fork's (partial) kill report
+						// afterwards.  A SIGKILL between a removal and the report
+						// write loses the numbers unavoidably.
+						confirmed := false
+						for _, w := range vos.W.Events {
+							if w.Seq > ev.Seq && w.Pid == ev.Pid && w.Op == "write" && w.Err == "" &&
+								(w.Path == forkDir+"/_vdrkill.partial" || w.Path == forkDir+"/_vdrkill") {
+								confirmed = true
+								break
+							}
+						}
+						if confirmed {
+							vdrBytes += uint64(len(rec.Content))
+							vdrFiles++
+						}
+						break
+					}
+				}
+			}
+			if vdrFiles > 0 {
+				c.Res.Probes["kill-report-vs-actual-removals-checked"]++
+			}
+			if rep.Size < vdrBytes || rep.Count < vdrFiles {
+				add("C14", "kill-report-misses-removed-files", fmt.Sprintf("%s reports %d files / %d bytes, but the storage code removed at least %d stage files / %d bytes below that fork",
+					strings.TrimPrefix(p, r.PsDir+"/"), rep.Count, rep.Size, vdrFiles, vdrBytes))
+			}
+		}
 		if !interrupted && path.Dir(p) != r.PsDir {
 			c.Res.Probes["kill-report-accounting-checked"]++
 			if rep.Size < knownBytes || rep.Count < knownFiles {
